@@ -236,7 +236,8 @@ pub fn unflatten(c: &mut HashMap<String, Map<String, Value>>, value: &Value) -> 
                             panic!("expecting_order_field_in_descriptor")
                         }
                     }
-                    None => panic!("unknown_descriptor_object"),
+                    // The descriptor is deleted (concurrent removal of the key): dangling reference
+                    None => Some(json!(null)),
                 }
             } else {
                 match c.remove(s) {
